@@ -818,7 +818,7 @@ func checkC19(c *Ctx) {
 				case *ssa.Field:
 					if strings.HasSuffix(TypeName(x.X.Type()), "EncoderConfig") {
 						if st, ok := types.Unalias(x.X.Type()).Underlying().(*types.Struct); ok {
-							return st.Field(x.Field).Name()
+							return FN(st.Field(x.Field))
 						}
 					}
 				}
